@@ -443,7 +443,8 @@ def same_objects(a, b):
 def other_routes(ctx, spec, ws, obj_cls, rules, objs, problems):
     """the other public ways to read the same sheet must give the objects read_table gave (those were
     just compared with the reference binding)"""
-    route = ("iter_table", "reader", "mixin", "map", "mixin_map", "none", "none")[ctx.counters.get("objects_checked", 0) % 7]
+    route = ("iter_table", "reader", "mixin", "map", "mixin_map", "multi", "mixin_child", "multi", "none")[
+        ctx.counters.get("objects_checked", 0) % 9]
     kw = dict(stop_on=spec['stop_on'], ladder_format=spec['ladder'])
     defaults = spec['stop_on'] == "blank all" and not spec['ladder']
     try:
@@ -452,6 +453,44 @@ def other_routes(ctx, spec, ws, obj_cls, rules, objs, problems):
         elif route == "reader":
             reader = X.XlsTableReader(X.XlsObjReadRules(obj_cls, rules))
             got = [x for (x,) in reader.iter_table(ws, **kw)]
+        elif route == "multi":
+            # several objects per row: one reads the ranged attribute, the other the remaining columns; together
+            # they know the same columns as the single object, so they must read the same values from the same cells
+            r_a = dict(rules, num=None, flag=None, tags=None, opt=None)
+            r_b = dict(rules, marks=None)
+            pair = [X.XlsObjReadRules(obj_cls, r_a), X.XlsObjReadRules(obj_cls, r_b)]
+            swap = len(objs) % 2 == 1
+            reader = X.XlsTableReader(*(pair[::-1] if swap else pair))
+            rows = [(t[::-1] if swap else t) for t in reader.iter_table(ws, **kw)]
+            ctx.count("rows_read_as_two_objects", len(rows))
+            if len(rows) != len(objs):
+                problems.append(("entry-points-disagree", {"route": route, "got": len(rows), "read_table": len(objs)}))
+                return
+            for (a, b), o in zip(rows, objs):
+                if (a is None) != (o is None) or (b is None) != (o is None):
+                    problems.append(("entry-points-disagree", {"route": route, "object_missing": True}))
+                    return
+                if o is None:
+                    continue
+                for part, attrs in ((a, ('key', 'name', 'marks')), (b, ('key', 'name', 'num', 'flag', 'tags', 'opt'))):
+                    for attr in attrs:
+                        if getattr(part, attr) != getattr(o, attr) or \
+                                part.get_attr_origin(attr) != o.get_attr_origin(attr):
+                            problems.append(("objects-sharing-a-row-read-other-cells",
+                                             {"attr": attr, "value": repr(getattr(part, attr))[:80],
+                                              "origin": part.get_attr_origin(attr),
+                                              "single_object": [repr(getattr(o, attr))[:80], o.get_attr_origin(attr)]}))
+                            return
+            return
+        elif route == "mixin_child" and defaults:
+            # a reader class derived from another reader class that was used before and binds 'name' differently
+            parent = type("ParentT", (X.TableReader, obj_cls), {"ATTR_RULES": dict(rules, name=('Key', X.cell_str))})
+            try:
+                parent.read_list(ws)
+            except Exception:
+                pass
+            child = type("ChildT", (parent,), {"ATTR_RULES": rules})
+            got = child.read_list(ws)
         elif route == "mixin" and defaults:
             cls = type("ObjT", (X.TableReader, obj_cls), {"ATTR_RULES": rules})
             got = cls.read_list(ws) if len(objs) % 2 else list(cls.iter_xls(ws))
